@@ -466,6 +466,14 @@ where
     if rep.violated() {
         return;
     }
+    // debugging aids: RV_SKIP_SUB=<name> leaves out one sub-check (to compare the others with an earlier run),
+    // RV_ONLY_SUB=<name> runs only that one
+    if std::env::var("RV_SKIP_SUB").map(|s| s == sub).unwrap_or(false) {
+        return;
+    }
+    if std::env::var("RV_ONLY_SUB").map(|s| s != sub).unwrap_or(false) {
+        return;
+    }
     let workers = workers.max(1);
     let per = cases.div_ceil(workers as u32);
     let reports: Vec<Report> = std::thread::scope(|scope| {
